@@ -35,6 +35,7 @@ Proof.
   intros HS HK. apply BuiltValue_sind.
   - intros s d Hs Hd. constructor; auto.
   - intros es d Hd _ IH. constructor; assumption.
+  - intros es d Hd _ IH. constructor; assumption.
   - intros l d Hd Hnd Hk _ IH. constructor; try assumption.
     rewrite Forall_forall in *. auto.
 Qed.
@@ -96,6 +97,17 @@ Section Len.
       { intros e He. rewrite Forall_forall in IH. specialize (IH e He).
         pose proof (arr_txt_len L (value_decor e, txt ftext e) (in_map _ _ _ He)) as H. cbn [snd] in H. unfold bytes in *. lia. }
       specialize (G Hall). unfold bytes in *. lia.
+    - intros es d _ _ IH. rewrite txt_array_ml. cbn [value_depth length]. rewrite !app_length. cbn [length].
+      set (L := map (fun e => (ml_decor e, txt ftext e)) es).
+      assert (Hall : forall e, In e es -> value_depth e <= length (arr_txt L)).
+      { intros e He. rewrite Forall_forall in IH. specialize (IH e He).
+        pose proof (arr_txt_len L (ml_decor e, txt ftext e) (in_map _ _ _ He)) as H. cbn [snd] in H. unfold bytes in *. lia. }
+      assert (G : forall B, (forall e, In e es -> value_depth e <= B) ->
+                            fold_right (fun it acc => match it with IValue e => Nat.max (value_depth e) acc | _ => acc end) 0
+                                       (map (fun e => IValue (ml_elem e)) es) <= B).
+      { clear. intros B HB. induction es as [|e es IHe]; [cbn; lia|]. cbn [map fold_right]. rewrite value_depth_ml_elem.
+        pose proof (HB e (or_introl eq_refl)). specialize (IHe (fun e' He' => HB e' (or_intror He'))). lia. }
+      specialize (G _ Hall). unfold bytes in *. lia.
     - intros l d _ _ _ _ IH. rewrite txt_inline. cbn [value_depth length]. rewrite app_length. cbn [length].
       set (L := map (fun kv => (key_new (fst kv), (value_decor (snd kv), txt ftext (snd kv)))) l).
       pose proof (fold_max_le_inl (length (inl_txt L)) l) as G.
